@@ -1,10 +1,10 @@
 SPECIFICATION MSpec
 CONSTANTS
-  Vals = {1,2}
+  Vals = {1,2,3}
   Callers = {"owner","stranger"}
   Owner = "owner"
   HasImmutable = TRUE
-  TwoPhase = FALSE
+  TwoPhase = TRUE
   MaxSteps = 2
 VIEW MView
 INVARIANTS OwnerOnly AllOrNothing Atomic AlwaysValid ImmutableKept
